@@ -17,7 +17,8 @@ import ThriftVerif.Core.VL
   * `anyFails`     – the loop returns the first error            (CheckOptionGrammar and what it calls)
   * `sumOver`      – the loop adds up sizes                      ((*Thrift).BLength)
   * `replace`      – the loop builds strings.NewReplacer's args  (insertionPointReplacer.Replace)
-  * `emit`         – the loop writes each entry to the output    (meta.write, (*Thrift).FastAppend, fastgo Imports)
+  * `emit`         – the loop writes each entry to the output    (no site any more: meta.write, (*Thrift).FastAppend and
+                     fastgo Imports did so until they were repaired; they now collect, sort, then write — `sortedBy`)
 
   Go strings are `Bytes`.
 -/
@@ -209,9 +210,19 @@ def encFileDescriptor (filepath : Bytes) (includes namespaces : List (Bytes × B
   encEmptyStructList 4 ++ encEmptyStructList 5 ++ encEmptyStructList 6 ++ encEmptyStructList 7 ++
   encEmptyStructList 8 ++ encEmptyStructList 9 ++ encEmptyStructList 10 ++ [0]
 
-/-- the variant that sorts the entries by key before writing (the suggested repair) -/
+/-- order in which meta.write now writes the entries of a map: by the encoded key bytes
+(`bytes.Compare` of the 4-byte length prefix followed by the key; the code breaks ties by the encoded
+value, which cannot occur between entries of one `map<string,…>`) -/
+def byEncodedKey (a b : Bytes × Bytes) : Bool := bytesLe (encStr a.1) (encStr b.1)
+
+/-- `write` for a map field as the code does it: collect the entries in iteration order, sort
+them by their encoding, then write -/
 def encMapFieldSorted (fid : Nat) (es : List (Bytes × Bytes)) : Bytes :=
-  encMapField fid (sortedBy (fun a b => bytesLe a.1 b.1) es)
+  encMapField fid (sortedBy byEncodedKey es)
+
+/-- `meta.Marshal(fd)` (same FileDescriptor shape as `encFileDescriptor`) with `es` in iteration order -/
+def encFileDescriptorSorted (filepath : Bytes) (includes namespaces : List (Bytes × Bytes)) : Bytes :=
+  encFileDescriptor filepath (sortedBy byEncodedKey includes) (sortedBy byEncodedKey namespaces)
 
 /-- one line of fastgo's `import ( … )` block: `fmt.Fprintf(s, "%s %q\n", alias, path)`
 (paths here contain no byte that %q escapes) -/
@@ -225,18 +236,23 @@ def isCloudwego (e : Bytes × Bytes) : Bool := cloudwegoPrefix.isPrefixOf e.1
 
 def byPath (a b : Bytes × Bytes) : Bool := bytesLe a.1 b.1
 
-/-- fastgo's import block after go/format: `(*codewriter).Imports` puts the non-cloudwego paths in a
-first group and the cloudwego ones in a second, separated by an empty line, each in iteration
-order; go/format (ast.SortImports) then sorts every group by import path. -/
+/-- fastgo's import block: `(*codewriter).Imports` puts the non-cloudwego paths in a first group
+and the cloudwego ones in a second, separated by an empty line, each collected in iteration order
+and then sorted by import path (`sort.Strings`; go/format would sort each group the same way). -/
 def importsFormatted (es : List (Bytes × Bytes)) : Bytes :=
   emit importLine (sortedBy byPath (es.filter fun e => !isCloudwego e)) ++ [10] ++
   emit importLine (sortedBy byPath (es.filter isCloudwego))
 
-/-- the same block when go/format does not run (`no_fmt`) -/
+/-- the same block without the two `sort.Strings` and without go/format (the code before the repair, under `no_fmt`) -/
 def importsUnformatted (es : List (Bytes × Bytes)) : Bytes :=
   emit importLine (es.filter fun e => !isCloudwego e) ++ [10] ++ emit importLine (es.filter isCloudwego)
 
 /-- one entry of `Name2Category` (map<string, i32>) as (*Thrift).FastAppend writes it -/
 def encNameCategory (e : Bytes × Nat) : Bytes := encStr e.1 ++ be32 e.2
+
+/-- the entries of `Name2Category` as (*Thrift).FastAppend writes them: keys collected in iteration
+order, `sort.Strings(keys)`, then written -/
+def encName2Category (es : List (Bytes × Nat)) : Bytes :=
+  emit encNameCategory (sortedBy (fun a b => bytesLe a.1 b.1) es)
 
 end Determinism
